@@ -146,8 +146,9 @@ def permutation_specs(ctx, rng):
         s0 = ep.scan()
         for k in range(3):
             ep.law("same", [s0, ep.scan(shuffle=rng.randint(0, 10 ** 6))])
-        e1 = ep.scan(ext=True, limit=rng.choice([0, 1, 2]))
-        ep.law("same", [e1, ep.scan(ext=True, limit=e1 and ep.items[-1]["limit"], shuffle=rng.randint(0, 10 ** 6))])
+        lim = rng.choice([None, 0, 1, 2])
+        e1 = ep.scan(ext=True, limit=lim)
+        ep.law("same", [e1, ep.scan(ext=True, limit=lim, shuffle=rng.randint(0, 10 ** 6))])
         for i, rule in enumerate(sc.rules_above(sc.all_modules(p), 99, rng, 6)):
             ep.seval(s0, f"R{i}", rule)
         sspecs.append(ep.spec)
@@ -228,7 +229,7 @@ def order_specs(ctx, rng):
                 ep.scan(mpath=d, ext=True)
         ep.scan()
         ep.scan(ext=True)
-        for k in (1, 2, 3):
+        for k in (0, 1, 2, 3):
             ep.scan(limit=k)
         if subs:
             ep.scan(mpath=subs[0], limit=1)
